@@ -1,6 +1,7 @@
 package stk
 
 import (
+	"crypto/ed25519"
 	"encoding/binary"
 	"fmt"
 	"runtime"
@@ -16,7 +17,10 @@ import (
 	"go.brendoncarroll.net/p2p/s/multiswarm"
 	"go.brendoncarroll.net/p2p/s/p2pkeswarm"
 	"go.brendoncarroll.net/p2p/s/quicswarm"
+	"go.brendoncarroll.net/p2p/s/sshswarm"
+	"go.brendoncarroll.net/p2p/s/udpswarm"
 	"go.brendoncarroll.net/p2p/s/wlswarm"
+	"golang.org/x/crypto/ssh"
 
 	"verifsim/simnet"
 )
@@ -104,6 +108,43 @@ func (w *World) baseMem() tier[memswarm.Addr] {
 	t := secureTier(xs)
 	t.ask = true
 	return t
+}
+
+// baseUDP: the real UDP swarm on loopback sockets (Tier B only: real clock, real kernel).
+func (w *World) baseUDP() tier[udpswarm.Addr] {
+	var out tier[udpswarm.Addr]
+	for i := 0; i < w.P.N; i++ {
+		laddr := w.udpListen
+		if laddr == "" {
+			laddr = "127.0.0.1:0"
+		}
+		s, err := udpswarm.New(laddr)
+		if err != nil {
+			panic(err)
+		}
+		out.sw = append(out.sw, s)
+	}
+	return out
+}
+
+// baseSSH: the real SSH swarm on loopback TCP sockets (Tier B only). Its public key type is
+// ssh.PublicKey, so the harness treats it as an ask-capable swarm without key lookups; the
+// identity is the fingerprint in the address.
+func (w *World) baseSSH() tier[sshswarm.Addr] {
+	var out tier[sshswarm.Addr]
+	for i := 0; i < w.P.N; i++ {
+		signer, err := ssh.NewSignerFromKey(ed25519.NewKeyFromSeed(w.Keys[i].Data[:32]))
+		if err != nil {
+			panic(err)
+		}
+		s, err := sshswarm.New("127.0.0.1:0", signer)
+		if err != nil {
+			panic(err)
+		}
+		out.sw = append(out.sw, s)
+	}
+	out.ask = true
+	return out
 }
 
 func fragL[A p2p.Addr](w *World, t tier[A]) tier[A] {
@@ -513,6 +554,14 @@ func (w *World) Build(spec string) []Endpoint {
 		return below(w, layers, w.baseSim())
 	case "mem":
 		return below(w, layers, w.baseMem())
+	case "udp":
+		return below(w, layers, w.baseUDP())
+	case "udp6":
+		// dual-stack sockets: datagrams from IPv4 senders arrive with IPv4-mapped sources
+		w.udpListen = "[::]:0"
+		return below(w, layers, w.baseUDP())
+	case "ssh":
+		return below(w, layers, w.baseSSH())
 	}
 	panic("unknown base " + base)
 }
